@@ -243,6 +243,63 @@ def dir_output_case(args):
         sc.close()
 
 
+def two_workflows_case(args):
+    """one program, two Workflow objects set up in advance and run one after the other: the first produces (and tags) files, the
+    second starts from them with a FileSource.  History: an earlier invocation stopped after the producer (RunTo) -- before
+    the tagging component rewrote the audit file --, then the whole program runs.  The records of the files the second
+    workflow produces embed, for every ancestor, the record that is on disk, and equal those of an uninterrupted run"""
+    seed, i = args
+    rng = random.Random(seed * 413158537 + i)
+    L = rng.randint(1, 3)
+    def program(partial):
+        sp = t3.Spec(maxtasks=rng.choice([1, 2, 3]), bufsize=128)
+        names = ["x%d" % j for j in range(L)]
+        a = sp.proc(t3.RawProc("make", "echo {p:n} > {o:out}", ins=[], pars=[("n", ("V", names))], outs=[("out", "{p:n}.txt")]))
+        sp.raw("COMP maptags %s %s %d %s" % (hx("tagger"), hx("kind"), a, hx("out")))
+        if partial:
+            sp.runto = [a]
+            return sp
+        sp.raw("NEXTWF")
+        s = sp.src("again", ["%s.txt" % n for n in names])
+        sp.proc(t3.RawProc("upper", "tr a-z A-Z < {i:in} > {o:out}", ins=[("in", [(s, "out")])], outs=[("out", "{i:in}.upper")]))
+        return sp
+    st = rng.getstate()
+    full = program(False)
+    rng.setstate(st)
+    part = program(True)
+    def records(fs):
+        out = {}
+        for p, v in fs.items():
+            if v[0] == "f" and p.endswith(".audit.json"):
+                try:
+                    out[p[:-len(".audit.json")]] = t3.audit_norm(json.loads(v[1]))
+                except ValueError:
+                    out[p[:-len(".audit.json")]] = "INVALID"
+        return out
+    sc0, sc = t3.Scratch(), t3.Scratch()
+    try:
+        ref = t3.run_impl(sc0, full, timeout=60)
+        r1 = t3.run_impl(sc, part, timeout=60)
+        r2 = t3.run_impl(sc, full, timeout=60)
+        problems = []
+        if ref["rc"] != 0 or r1["rc"] != 0 or r2["rc"] != 0:
+            problems.append(("unexpected-failure", "exit %s / %s / %s: %s" % (ref["rc"], r1["rc"], r2["rc"], (ref["stderr"] + r1["stderr"] + r2["stderr"])[-200:])))
+        else:
+            want, got = records(ref["fs"]), records(r2["fs"])
+            for j in range(L):
+                f = "x%d.txt.upper" % j
+                if got.get(f) != want.get(f):
+                    problems.append(("lineage-differs", "the record of %r after the resumed history differs from the uninterrupted run's: %s vs %s" % (f, json.dumps(got.get(f))[:300], json.dumps(want.get(f))[:300])))
+                    break
+                up = (got.get(f) or {}).get("Upstream", {}).get("x%d.txt" % j)
+                if up != got.get("x%d.txt" % j):
+                    problems.append(("ancestor-record-differs", "the record of x%d.txt embedded in %r is not the record on disk: %s vs %s" % (j, f, json.dumps(up)[:200], json.dumps(got.get("x%d.txt" % j))[:200])))
+                    break
+        return {"spec": full.text(), "bufsize": 128, "problems": problems, "mode": "two-workflows", "point": None, "ntasks": 2 * L, "rc": r2["rc"], "stderr": r2["stderr"][-200:], "yield": None, "wall": r2["wall"]}
+    finally:
+        sc0.close(); sc.close()
+
+
 def run(rep, tier, seed):
     proved = vlib.prove(rep, MODULE, THEOREMS) if THEOREMS else True
     ok, msg = vlib.build_ocaml()
@@ -265,6 +322,7 @@ def run(rep, tier, seed):
             cases.append((seed, i + 1000 * k, "runto", None))
             cases.append((seed, i + 1000 * k, "delete", None))
     results = [r for r in t3.run_many(case, cases) if r]
+    results += t3.run_many(two_workflows_case, [(seed, i) for i in range(6 if tier == "quick" else 80)])
     results += t3.run_many(dir_output_case, [(seed, i) for i in range(6 if tier == "quick" else 80)])
     found = t3.report_t3(rep, MODULE, proved, results, "T3 resumed histories: audit lineage vs the uninterrupted run")
     jl = json_roundtrip(rng, 300 if tier == "quick" else 5000)
